@@ -272,11 +272,86 @@ func (g *sessGen) readArgs(sizeHint int) (uint32, uint64) {
 	return n, off
 }
 
+// scripted fragments: multi-step sequences that only matter in a particular connection state
+func (g *sessGen) fragment(withCD bool) []*Req {
+	r := g.env.Rnd
+	payload := func() *Req {
+		n := []int{0, 1, 32, 100, 3000, 65536, 65537}[r.Intn(7)]
+		b := make([]byte, n)
+		r.Read(b)
+		return &Req{Op: opWriteFile, N: uint32(n), Payload: b}
+	}
+	dir := strings.TrimSuffix(g.pick(g.dirs), "/")
+	newName := []string{"UP", "new", "n1", "n2"}[r.Intn(4)]
+	badCreates := []string{dir + "/nodir/x", "/***DVD***/" + strings.TrimPrefix(dir, "/") + "/x", g.pick(g.files) + "/x", "/" + strings.Repeat("L", 300), dir}
+	switch r.Intn(9) {
+	case 0: // upload in several writes
+		out := []*Req{{Op: opCreateFile, Path: dir + "/" + newName}}
+		for k := 0; k < 1+r.Intn(3); k++ {
+			out = append(out, payload())
+		}
+		return append(out, &Req{Op: opStatFile, Path: dir + "/" + newName})
+	case 1: // a failing create after a successful one, then a write
+		return []*Req{{Op: opCreateFile, Path: dir + "/" + newName}, payload(),
+			{Op: opCreateFile, Path: badCreates[r.Intn(len(badCreates))]}, payload(), {Op: opStatFile, Path: dir + "/" + newName}}
+	case 2: // re-create (truncate) while the write file is open, and while it is open for reading
+		f := g.pick(g.files)
+		return []*Req{{Op: opOpenFile, Path: f}, {Op: opCreateFile, Path: f}, payload(), {Op: opReadFile, N: 5000, Off: 0}, {Op: opCreateFile, Path: f}, {Op: opReadFile, N: 10, Off: 0}}
+	case 3: // open, boundary reads, CLOSEFILE, read
+		f := g.pick(g.files)
+		return []*Req{{Op: opOpenFile, Path: f}, {Op: opReadFile, N: 2048, Off: 0}, {Op: opReadFileCritical, N: 0, Off: 1 << 40}, {Op: opReadFile, N: 0, Off: 0},
+			{Op: opOpenFile, Path: "/CLOSEFILE"}, {Op: opReadFile, N: 1, Off: 0}}
+	case 4: // enumerate a directory to the end and once more; mix both entry commands and the bulk listing
+		d := g.pick(g.dirs)
+		out := []*Req{{Op: opOpenDir, Path: d}}
+		for k := 0; k < 2+r.Intn(12); k++ {
+			out = append(out, &Req{Op: []int{opReadDirEntry, opReadDirEntryV2, opReadDirEntry, opReadDir}[r.Intn(4)]})
+		}
+		return out
+	case 5: // a second open while one is open: directory then file, file then missing file
+		return []*Req{{Op: opOpenDir, Path: g.pick(g.dirs)}, {Op: opReadDirEntry}, {Op: opOpenDir, Path: g.pick(g.files)}, {Op: opReadDirEntry}, {Op: opReadDir},
+			{Op: opOpenFile, Path: g.pick(g.files)}, {Op: opOpenFile, Path: dir + "/missing"}, {Op: opReadFile, N: 10, Off: 0}}
+	case 6: // mkdir, create inside, write, listing, delete, rmdir, and again
+		nd := dir + "/" + newName
+		return []*Req{{Op: opMkdir, Path: nd}, {Op: opCreateFile, Path: nd + "/f"}, payload(), {Op: opOpenDir, Path: nd}, {Op: opReadDir}, {Op: opRmdir, Path: nd},
+			{Op: opDeleteFile, Path: nd + "/f"}, {Op: opRmdir, Path: nd}, {Op: opStatFile, Path: nd}, {Op: opGetDirSize, Path: dir}}
+	case 7: // the create-on-a-directory close idiom, then a write
+		return []*Req{{Op: opCreateFile, Path: dir + "/" + newName}, payload(), {Op: opCreateFile, Path: g.pick(g.dirs)}, payload()}
+	default: // open files of different kinds one after another, byte reads and sector reads interleaved
+		out := []*Req{}
+		for k := 0; k < 3; k++ {
+			p := g.pick(g.files)
+			if withCD && r.Intn(2) == 0 {
+				p = "/cd.bin"
+			}
+			b := uint64(r.Intn(3000))
+			out = append(out, &Req{Op: opOpenFile, Path: p}, &Req{Op: opReadFile, N: 100, Off: b}, &Req{Op: opReadCD, Start: uint32(r.Intn(50)), Cnt: uint32(r.Intn(3))},
+				&Req{Op: opReadFile, N: 100, Off: b + 100}, &Req{Op: opReadFileCritical, N: 10, Off: b + 200})
+			if r.Intn(3) == 0 {
+				out = append(out, &Req{Op: opOpenFile, Path: "CLOSEFILE"})
+			}
+		}
+		return out
+	}
+}
+
 func (g *sessGen) gen(nreq int, withCD bool) []*Req {
 	r := g.env.Rnd
 	var out []*Req
 	lastSize := 5000
 	for len(out) < nreq {
+		if r.Intn(5) == 0 {
+			for _, q := range g.fragment(withCD) {
+				if q.Junk == nil {
+					q.Junk = make([]byte, 14)
+				}
+				if isPathOp(q.Op) {
+					q.Path = g.decorate(q.Path)
+				}
+				out = append(out, q)
+			}
+			continue
+		}
 		junk := make([]byte, 14)
 		if r.Intn(3) == 0 {
 			r.Read(junk)
@@ -468,6 +543,8 @@ type oracleState struct {
 	cwdPath string
 	cwdLeft map[string]bool // names not yet returned by entry-by-entry enumeration (nil = unknown)
 	cwdSeen map[string]bool // names already returned
+	woPath  string          // canonical path of the file being uploaded ("" = none)
+	woData  []byte          // what has been uploaded to it since it was created
 }
 
 func canon(p string) string { return filepath.Clean("/" + p) }
@@ -752,6 +829,36 @@ func checkStep(env *Env, id string, top string, allow bool, st *oracleState, q *
 		if code != 0 && code != -1 {
 			fail("C03-shape", "result code %d", code)
 		}
+		if q.Op == opCreateFile && allow {
+			// a create closes the previous upload whatever its own outcome; on success a new (empty) upload begins
+			st.woPath, st.woData = "", nil
+			if code == 0 && !isVirtual(q.Path) {
+				if fi, err := os.Stat(real(q.Path)); err == nil && !fi.IsDir() {
+					st.woPath = canon(q.Path)
+					if fi.Size() != 0 {
+						fail("C05-upload", "CREATE_FILE %q succeeded but the file has %d bytes", st.woPath, fi.Size())
+					}
+				} else if err != nil {
+					fail("C05-effect", "CREATE_FILE %q answered 0 but no such file exists", canon(q.Path))
+				}
+			}
+		}
+		if allow && code == 0 {
+			_, err := os.Stat(real(q.Path))
+			switch q.Op {
+			case opMkdir:
+				if fi, e2 := os.Stat(real(q.Path)); e2 != nil || !fi.IsDir() {
+					fail("C05-effect", "MKDIR %q answered 0 but there is no such directory", canon(q.Path))
+				}
+			case opDeleteFile, opRmdir:
+				if err == nil {
+					fail("C05-effect", "removal of %q answered 0 but it still exists", canon(q.Path))
+				}
+				if canon(q.Path) == st.woPath {
+					st.woPath = "?gone"
+				}
+			}
+		}
 	case opWriteFile:
 		code := int32(binary.BigEndian.Uint32(out))
 		if !allow && code != -1 {
@@ -759,6 +866,22 @@ func checkStep(env *Env, id string, top string, allow bool, st *oracleState, q *
 		}
 		if code != -1 && code != int32(len(q.Payload)) {
 			fail("C05-upload", "WRITE_FILE of %d bytes answered %d", len(q.Payload), code)
+		}
+		if allow {
+			switch {
+			case st.woPath == "":
+				if code != -1 {
+					fail("C05-upload", "WRITE_FILE answered %d although no upload is open (the last create failed or none was made)", code)
+				}
+			case st.woPath == "?gone":
+			default:
+				if code == int32(len(q.Payload)) {
+					st.woData = append(st.woData, q.Payload...)
+				}
+				if disk, err := os.ReadFile(filepath.Join(root, st.woPath)); err == nil && !bytes.Equal(disk, st.woData) {
+					fail("C05-upload", "after uploading to %q the file holds %d bytes, the accepted payloads are %d bytes; equal prefix: %v", st.woPath, len(disk), len(st.woData), bytes.HasPrefix(disk, st.woData) || bytes.HasPrefix(st.woData, disk))
+				}
+			}
 		}
 	case opGetDirSize:
 		got := be64(out)
